@@ -1,9 +1,9 @@
-(* Tie/Github.v — the generated translation of pkg/ecosystem/github (Gen/Code/Github.v) equals
-   the hand-written model (Eco/Github). *)
+(* Tie/Github.v — VERSION level: the generated translation of pkg/ecosystem/github
+   (Gen/Code/Github.v) equals the hand-written model (Eco/Github/Version).  The range-level ties are
+   in Tie/GithubRange.v (which depends on this file, never the other way round). *)
 From Coq Require Import ZArith List Bool Lia.
 From Verif.Base Require Import Bytes GoNum GoOps Ord.
-From Verif.Eco Require Import RangeCore.
-From Verif.Eco.Github Require Version Range.
+From Verif.Eco.Github Require Version.
 From Verif.Gen.Code Require Github.
 From Verif.Tie Require Import Tactics.
 Import ListNotations.
@@ -37,29 +37,3 @@ Print Assumptions tie_github_compare.
 Theorem tie_github_string : forall v, G.Version_String v = G.Version_original v.
 Proof. tie_solve. Qed.
 Print Assumptions tie_github_string.
-
-(* range: the operator switch is the model's sem5/sat on the sign of Compare (any Compare: it
-   stays folded) *)
-Local Opaque G.Version_Compare.
-Theorem tie_github_matches : forall c v,
-  G.constraint_matches c v =
-  sat (rc_sem Range.cfg (G.constraint_operator c)) (cmp_of_Z (G.Version_Compare v (G.constraint_version c))).
-Proof. tie_solve. Qed.
-Print Assumptions tie_github_matches.
-
-(* ... hence the model's comparison of the abstracted versions *)
-Corollary tie_github_matches_model : forall c v,
-  G.constraint_matches c v =
-  sat (rc_sem Range.cfg (G.constraint_operator c)) (M.cmp_core (abs v) (abs (G.constraint_version c))).
-Proof. intros. rewrite tie_github_matches, tie_github_compare, cmp_of_Z_of_cmp. reflexivity. Qed.
-Print Assumptions tie_github_matches_model.
-
-(* Contains: conjunction over the constraints, as RangeCore.contains *)
-Theorem tie_github_contains : forall r v,
-  G.VersionRange_Contains r v =
-  forallb (fun c => sat (rc_sem Range.cfg (G.constraint_operator c)) (M.cmp_core (abs v) (abs (G.constraint_version c))))
-          (G.VersionRange_constraints r).
-Proof.
-  intros. unfold G.VersionRange_Contains. apply forallb_ext_in. intros c _. apply tie_github_matches_model.
-Qed.
-Print Assumptions tie_github_contains.
